@@ -1,20 +1,104 @@
 package values
 
 import (
+	"reflect"
 	"sync"
+
+	yaml "gopkg.in/yaml.v2"
 )
 
 type drop interface {
 	ToLiquid() any
 }
 
+// maxDropDepth bounds how many drops in a row ToLiquid resolves, so that a drop
+// that yields itself ends the loop.
+const maxDropDepth = 64
+
 // ToLiquid converts an object to Liquid, if it implements the Drop interface.
+// A drop that yields a drop is resolved in turn, until the value is not a drop.
 func ToLiquid(value any) any {
-	switch value := value.(type) {
-	case drop:
-		return value.ToLiquid()
+	for range maxDropDepth {
+		d, ok := value.(drop)
+		if !ok {
+			break
+		}
+		value = d.ToLiquid()
+	}
+	return value
+}
+
+// ResolveDrops is ToLiquid at every depth of a value that is about to be printed: fmt shows
+// a drop inside an array or a map as the Go struct that it is, not as its Liquid value. A
+// slice, array or map that holds a drop (as an element, or inside an element that is in turn
+// a slice, array or map) is rebuilt as a []any or map[K]any with the drop resolved. A value
+// that holds none is returned as it is, so that it prints as it always did.
+func ResolveDrops(value any) any {
+	resolved, _ := resolveDrops(value, 0)
+	return resolved
+}
+
+// resolveDrops also reports whether it had a drop to resolve.
+func resolveDrops(value any, depth int) (any, bool) {
+	_, found := value.(drop)
+	value = ToLiquid(value)
+	if value == nil || depth == maxDropDepth {
+		return value, found
+	}
+	if item, ok := value.(yaml.MapItem); ok {
+		// an entry of a yaml.MapSlice
+		if v, inner := resolveDrops(item.Value, depth+1); inner {
+			return yaml.MapItem{Key: item.Key, Value: v}, true
+		}
+		return value, found
+	}
+	rv := reflect.ValueOf(value)
+	switch rv.Kind() {
+	case reflect.Array, reflect.Slice:
+		if !mayHoldDrop(rv.Type().Elem()) {
+			break
+		}
+		result := make([]any, rv.Len())
+		inner := false
+		for i := range result {
+			var f bool
+			result[i], f = resolveDrops(rv.Index(i).Interface(), depth+1)
+			inner = inner || f
+		}
+		if inner {
+			return result, true
+		}
+	case reflect.Map:
+		if !mayHoldDrop(rv.Type().Elem()) {
+			break
+		}
+		et := reflect.TypeOf([]any{}).Elem()
+		result := reflect.MakeMapWithSize(reflect.MapOf(rv.Type().Key(), et), rv.Len())
+		inner := false
+		for iter := rv.MapRange(); iter.Next(); {
+			v, f := resolveDrops(iter.Value().Interface(), depth+1)
+			inner = inner || f
+			if v == nil {
+				result.SetMapIndex(iter.Key(), reflect.Zero(et))
+			} else {
+				result.SetMapIndex(iter.Key(), reflect.ValueOf(v))
+			}
+		}
+		if inner {
+			return result.Interface(), true
+		}
+	}
+	return value, found
+}
+
+// mayHoldDrop reports whether a slice, array or map with elements of this type can hold a
+// drop: not a []string, a []int or a map[string]float64, which need no second look.
+func mayHoldDrop(et reflect.Type) bool {
+	switch et.Kind() {
+	case reflect.Interface, reflect.Array, reflect.Slice, reflect.Map, reflect.Ptr, reflect.Struct:
+		return true
 	default:
-		return value
+		return et.Implements(reflect.TypeOf((*drop)(nil)).Elem())
 	}
 }
 
